@@ -77,12 +77,15 @@ type Unit struct {
 	caseCond   *Term
 	loopFirst  [][2]*Term
 	symAddrs   []*Term
+	recFuel    map[*specFunc]int
 }
 
 func (e *Engine) NewUnit(fn *ssa.Function, bc *BoundContract) *Unit {
 	c := NewCtx()
-	return &Unit{E: e, C: c, MC: NewMemCtx(c), Fn: fn, BC: bc, assumed: map[int]bool{}, oblCount: map[string]int{},
+	u := &Unit{E: e, C: c, MC: NewMemCtx(c), Fn: fn, BC: bc, assumed: map[int]bool{}, oblCount: map[string]int{},
 		entryMems: map[string]*Mem{}, Trusted: map[string]bool{}, strLitDone: map[int]bool{}, Inlined: map[string]bool{}}
+	u.MC.NextObj = &u.nextObj
+	return u
 }
 
 func (u *Unit) assumeGlobal(f *Term) {
